@@ -152,7 +152,7 @@ def op_table():
     from funsor.ops.op import _iter_subclasses
     classes = {}
     for cls in _iter_subclasses(ops.Op):
-        if isinstance(getattr(cls, "name", None), str) and hasattr(cls, "signature"):
+        if isinstance(getattr(cls, "name", None), str) and hasattr(cls, "signature") and not cls.name.startswith("fv_"):
             classes.setdefault(cls.name, cls)
     for name in sorted(classes):
         cls = classes[name]
@@ -262,6 +262,29 @@ def _ast_contraction_init():
     return stmts, ast.unparse(init.args)
 
 
+def _ast_dependent_source():
+    """Source forms: Dependent.__init__ / __call__ (domains.py) and the call in make_op's find_domain rule."""
+    out = []
+    tree = ast.parse((REPO / "funsor" / "domains.py").read_text())
+    for node in tree.body:
+        if isinstance(node, ast.ClassDef) and node.name == "Dependent":
+            for sub in node.body:
+                if isinstance(sub, ast.FunctionDef) and sub.name in ("__init__", "__call__"):
+                    body = [st for st in sub.body if not (isinstance(st, ast.Expr) and isinstance(st.value, ast.Constant))]
+                    out.append(("Dependent." + sub.name, ast.unparse(sub.args), " ; ".join(ast.unparse(st) for st in body)))
+    tree = ast.parse((REPO / "funsor" / "op_factory.py").read_text())
+    for node in ast.walk(tree):
+        if isinstance(node, ast.FunctionDef) and node.name == "find_domain_made_op":
+            for st in ast.walk(node):
+                if isinstance(st, ast.Return):
+                    out.append(("find_domain_made_op.return", ast.unparse(node.args), ast.unparse(st)))
+        if isinstance(node, ast.FunctionDef) and node.name == "make_op":
+            for st in node.body:
+                if isinstance(st, ast.Assign) and ast.unparse(st.targets[0]) == "parameters":
+                    out.append(("make_op.parameters", "", ast.unparse(st)))
+    return out
+
+
 def render_contraction(stmts, args):
     L = ["/- GENERATED by fv/harness/c06.py:extract from /repo/funsor/cnf.py (Contraction.__init__) on every run — do not edit. -/",
          "namespace FV.Gen.C06", "",
@@ -269,6 +292,10 @@ def render_contraction(stmts, args):
          "def contractionInitArgs : String := " + _lean_str(args), "",
          "def contractionInitTyping : List (String × String) := ["]
     L.append(",\n".join("  (" + _lean_str(g) + ", " + _lean_str(st) + ")" for g, st in stmts))
+    L += ["]", "",
+          "/-- `Dependent.__init__` / `__call__` and the call site in `make_op`: (where, args, body) -/",
+          "def dependentSource : List (String × String × String) := ["]
+    L.append(",\n".join("  (" + ", ".join(_lean_str(x) for x in row) + ")" for row in _ast_dependent_source()))
     L += ["]", "", "end FV.Gen.C06", ""]
     return "\n".join(L)
 
